@@ -1257,12 +1257,14 @@ func runJSONSeq(sum *vh.Summary, text, schema string, verbose bool) (failed bool
 		fail("NewTransform failed", err.Error())
 		return
 	}
+	var kept [][]byte // every slice Transform.Read returned: the caller may keep them (batching)
 	for i, want := range recs {
 		b, err := tr.Read()
 		if err != nil {
 			fail(fmt.Sprintf("record %d: Read failed on a valid record", i), err.Error())
 			return
 		}
+		kept = append(kept, b)
 		var out map[string]interface{}
 		if err := json.Unmarshal(b, &out); err != nil {
 			fail(fmt.Sprintf("record %d: output does not decode", i), string(b))
@@ -1281,6 +1283,16 @@ func runJSONSeq(sum *vh.Summary, text, schema string, verbose bool) (failed bool
 	}
 	if _, err := tr.Read(); err != io.EOF {
 		fail("transform did not end after the last record", fmt.Sprint(err))
+		return
+	}
+	// the bytes returned for record k still are record k after all later Reads
+	for i, b := range kept {
+		var out map[string]interface{}
+		if !json.Valid(b) || json.Unmarshal(b, &out) != nil || !eqJSON(out["copy"], recs[i]) {
+			fail("the bytes Transform.Read returned for a copied record changed after later Reads (the record is no longer an equal JSON value)",
+				map[string]interface{}{"record": i, "bytes_now": clip(string(b))})
+			return
+		}
 	}
 	return
 }
